@@ -383,3 +383,90 @@ Proof.
   destruct (reach_bound _ _ _ _ _ 0 R eq_refl) as [_ Hb].
   destruct (q_chan s2); [reflexivity | cbn [length] in Hb; lia].
 Qed.
+
+(* the panic count after the background side has run: the panics so far plus those scripted for
+   the metrics that were still to be processed *)
+Theorem panics_eventually cap handler evs s rs outs fuel :
+  run true (init_q cap handler) evs = Some (s, rs) -> mu s < fuel ->
+  let s' := quiesce true fuel s outs in
+  q_panics s' = q_panics s + npanics (answers (pending_ids s) outs) /\
+  q_panics s' = npanics (q_delivered s').
+Proof.
+  intros R Hmu s'.
+  destruct (eventually cap handler evs s rs outs fuel R Hmu)
+    as ((wevs & wrs & W & R2 & R3) & _ & Ed & _).
+  fold s' in Ed, R3.
+  rewrite (reach_panics _ _ _ _ _ R3), (reach_panics _ _ _ _ _ R), Ed, npanics_app. auto.
+Qed.
+
+(* ------------------------------------------------------------------ counters and handler log once settled *)
+Theorem settled_counters cap handler evs s rs outs fuel :
+  run true (init_q cap handler) evs = Some (s, rs) -> mu s < fuel ->
+  let s' := quiesce true fuel s outs in
+  q_submitted s' = count_ok rs /\ q_drained s' = count_ok rs /\
+  length (q_delivered s') = count_ok rs /\ queued_now s' = 0.
+Proof.
+  intros R Hmu s'.
+  destruct (eventually cap handler evs s rs outs fuel R Hmu)
+    as (_ & _ & _ & Em & _ & _ & _ & _ & _ & Es & Ed & _).
+  fold s' in Em, Es, Ed.
+  destruct (run_accepted _ _ _ _ _ R) as [Ea _]. cbn in Ea.
+  apply (f_equal (@length nat)) in Em. rewrite map_length, seq_length in Em.
+  unfold queued_now. rewrite Es, Ed, Nat.ltb_irrefl. repeat split; congruence.
+Qed.
+
+Theorem no_handler_eventually cap evs s rs outs fuel :
+  run true (init_q cap false) evs = Some (s, rs) -> mu s < fuel ->
+  let s' := quiesce true fuel s outs in
+  q_handled s = [] /\ q_handled s' = [] /\
+  map fst (q_delivered s) ++ inflight (q_wk s) ++ somes (q_chan s) = seq 0 (q_accepted s) /\
+  q_delivered s' = q_delivered s ++ answers (pending_ids s) outs /\
+  map fst (q_delivered s') = seq 0 (q_accepted s).
+Proof.
+  intros R Hmu s'.
+  destruct (eventually cap false evs s rs outs fuel R Hmu)
+    as ((wevs & wrs & _ & _ & R3) & _ & Ed & Em & _).
+  fold s' in R3, Ed, Em.
+  split; [exact (reach_handled _ _ _ _ _ R)|]. split; [exact (reach_handled _ _ _ _ _ R3)|].
+  split; [exact (I_commit s (inv_reach _ _ _ _ _ R))|]. auto.
+Qed.
+
+Theorem handler_eventually cap evs s rs outs fuel :
+  run true (init_q cap true) evs = Some (s, rs) -> mu s < fuel ->
+  let s' := quiesce true fuel s outs in
+  q_handled s' = q_handled s ++ errs (answers (pending_ids s) outs).
+Proof.
+  intros R Hmu s'.
+  destruct (eventually cap true evs s rs outs fuel R Hmu)
+    as ((wevs & wrs & _ & _ & R3) & _ & Ed & _).
+  fold s' in R3, Ed.
+  rewrite (reach_handled _ _ _ _ _ R3), (reach_handled _ _ _ _ _ R), Ed, errs_app. reflexivity.
+Qed.
+
+Theorem panic_script_eventually cap handler evs s rs outs fuel :
+  run true (init_q cap handler) evs = Some (s, rs) -> mu s < fuel ->
+  let s' := quiesce true fuel s outs in
+  q_delivered s' = q_delivered s ++ answers (pending_ids s) outs /\
+  map fst (q_delivered s') = seq 0 (q_accepted s) /\
+  q_panics s' = q_panics s + npanics (answers (pending_ids s) outs) /\
+  (q_handles s <> 0 -> q_wk s' = WRecv) /\
+  (q_handles s = 0 -> q_wk s' = WExited /\ sink_released s' = true).
+Proof.
+  intros R Hmu s'.
+  destruct (eventually cap handler evs s rs outs fuel R Hmu)
+    as (_ & _ & Ed & Em & _ & _ & _ & _ & _ & _ & _ & Hl & Hx).
+  destruct (panics_eventually cap handler evs s rs outs fuel R Hmu) as [Ep _].
+  auto.
+Qed.
+
+Theorem last_drop_fuel_of cap handler evs s rs outs :
+  run true (init_q cap handler) evs = Some (s, rs) -> q_handles s = 0 ->
+  let s' := quiesce true (fuel_of s) s outs in
+  q_wk s' = WExited /\ sink_released s' = true /\
+  q_delivered s' = q_delivered s ++ answers (pending_ids s) outs /\
+  map fst (q_delivered s') = seq 0 (q_accepted s).
+Proof.
+  intros R Hh s'.
+  destruct (last_drop cap handler evs s rs outs (fuel_of s) R Hh (mu_fuel_of s))
+    as (_ & A & B & C & D & _). auto.
+Qed.
